@@ -1806,21 +1806,21 @@ fn main() {
         }
     } else {
         if mode == "both" || mode == "sim" {
-            let n = args.extra_u64("cases", args.by_tier(8_000, 600_000));
-            let rep = par_cases(args.threads, args.seed, n, args.budget(50, 600), |_i, s, r| sim_case(s, r));
+            let n = args.extra_u64("cases", args.by_tier(7_000, 600_000));
+            let rep = par_cases(args.threads, args.seed, n, args.budget(40, 600), |_i, s, r| sim_case(s, r));
             total.merge(rep);
-            let n = args.extra_u64("walfault-cases", args.by_tier(2_500, 150_000));
+            let n = args.extra_u64("walfault-cases", args.by_tier(2_000, 150_000));
             let scratch = args.scratch.clone();
-            let rep = par_cases(args.threads, args.seed ^ 0x3C, n, args.budget(20, 240), move |_i, s, r| walfault_case(s, r, &scratch));
+            let rep = par_cases(args.threads, args.seed ^ 0x3C, n, args.budget(15, 240), move |_i, s, r| walfault_case(s, r, &scratch));
             total.merge(rep);
-            let n = args.extra_u64("persist-cases", args.by_tier(2_000, 100_000));
-            let rep = par_cases(args.threads, args.seed ^ 0x5D, n, args.budget(20, 240), |_i, s, r| persist_case(s, r));
+            let n = args.extra_u64("persist-cases", args.by_tier(1_600, 100_000));
+            let rep = par_cases(args.threads, args.seed ^ 0x5D, n, args.budget(15, 240), |_i, s, r| persist_case(s, r));
             total.merge(rep);
         }
         if mode == "both" || mode == "threaded" {
             // each case spawns 2-6 threads of its own: run fewer cases side by side
             let n = args.extra_u64("threaded-cases", args.by_tier(2_400, 60_000));
-            let rep = par_cases((args.threads / 3).max(1), args.seed ^ 0x7A, n, args.budget(30, 240), |_i, s, r| threaded_case(s, r));
+            let rep = par_cases((args.threads / 3).max(1), args.seed ^ 0x7A, n, args.budget(25, 240), |_i, s, r| threaded_case(s, r));
             total.merge(rep);
             let n = args.extra_u64("burst-cases", args.by_tier(12, 200));
             let rep = par_cases((args.threads / 4).max(1), args.seed ^ 0x7B, n, args.budget(10, 60), |_i, s, r| burst_case(s, r));
